@@ -509,13 +509,40 @@ func staticHeaderScan(c *Ctx) {
 			}
 		}
 	}
+	// second pass, type-specific pattern, over every other package a delivered message can reach (message
+	// models and codecs get the *JTMessage in Parse / ReplyBody): <...>.Header.<listed field> = ...
+	viaHeader := regexp.MustCompile(`(Header|header)\.(ID|SerialNumber|SubPackageSum|SubPackageNo|TerminalPhoneNo)\b[^=!<>:\n]*(=[^=]|\+\+|--)`)
+	nOther := 0
+	for _, dir := range []string{"protocol", "shared", "attachment"} {
+		filepath.Walk(filepath.Join(root, dir), func(f string, info os.FileInfo, err error) error {
+			if err != nil || info.IsDir() || !strings.HasSuffix(f, ".go") || strings.HasSuffix(f, "_test.go") ||
+				strings.HasSuffix(f, "protocol/jt808/jt808.go") {
+				return nil
+			}
+			src, err := os.ReadFile(f)
+			if err != nil {
+				return nil
+			}
+			nOther++
+			for i, l := range strings.Split(string(src), "\n") {
+				code := l
+				if k := strings.Index(code, "//"); k >= 0 {
+					code = code[:k]
+				}
+				if viaHeader.MatchString(code) {
+					bad = append(bad, fmt.Sprintf("%s:%d: %s", strings.TrimPrefix(f, root+"/"), i+1, strings.TrimSpace(l)))
+				}
+			}
+			return nil
+		})
+	}
 	c.Eval("static header-field scan", true)
 	c.Count("static/header-fields")
-	c.Extra["header_scan"] = map[string]any{"files": nfiles, "saw_header_decode": sawDecode, "decode_call_sites": nCalls}
+	c.Extra["header_scan"] = map[string]any{"files": nfiles, "saw_header_decode": sawDecode, "decode_call_sites": nCalls, "other_files": nOther}
 	// fail closed: a scan that saw nothing proves nothing
-	if nfiles < 10 || !sawDecode || nCalls < 3 {
+	if nfiles < 10 || !sawDecode || nCalls < 3 || nOther < 50 {
 		c.Violate(Violation{Signature: "C09/header-scan-empty", What: "the source scan behind 'header fields are values' did not see what it must see",
-			Input: "hold -", Observed: fmt.Sprintf("root=%s files=%d Header.decode seen=%v Decode call sites in service=%d", root, nfiles, sawDecode, nCalls),
+			Input: "hold -", Observed: fmt.Sprintf("root=%s files=%d Header.decode seen=%v Decode call sites in service=%d files of protocol/ shared/ attachment/=%d", root, nfiles, sawDecode, nCalls, nOther),
 			Required: "at least 10 non-test files of service/ and protocol/jt808/, func (h *Header) decode, at least 3 Decode call sites in service/"})
 	}
 	if len(bad) > 0 {
